@@ -166,6 +166,9 @@ def updates(root):
                 if dest is None or dest.startswith("_"):
                     continue
             rhs = strip(sc.rvalue(s["rv"]))
+            if rhs[0] == "proj" and rhs[2] == (".0",) and strip(rhs[1])[0] == "bin" and "WithOverflow" in strip(rhs[1])[1]:
+                inner = strip(rhs[1])
+                rhs = ("bin", inner[1].replace("WithOverflow", ""), inner[2], inner[3])
             op = "="
             term = rhs
             if rhs[0] == "bin" and rhs[1] in ("Add", "Div", "Sub", "Mul"):
@@ -177,4 +180,7 @@ def updates(root):
                     op = {"Add": "+=", "Mul": "*="}[rhs[1]]
                     term = a
             out.append({"dest": dest, "op": op, "term": term, "scope": sc, "bb": b, "line": s.get("ln")})
+        for b, t in body.calls():
+            if isinstance(t["dest"], int) and t["dest"] in body.names:
+                out.append({"dest": body.names[t["dest"]], "op": "=", "term": strip(sc._rw(sc.eb.call_node(t, b))), "scope": sc, "bb": b, "line": t.get("ln")})
     return out
